@@ -139,6 +139,7 @@ def run(ctx):
         language_histories(ctx, li, spec, opdecls, nhist, [])
     polyconst_family(ctx)
     validate_history_cases(ctx)
+    alias_wildcard_cases(ctx)
 
 
 def validate_history_cases(ctx):
@@ -193,6 +194,47 @@ def validate_history_cases(ctx):
                 ctx.fail(f"Language.validate() of a language with {'a valid' if valid else 'an invalid (plain, wildcard-holding)'} signature gives {got} after "
                          f"the history {hist}; on the fresh language {ref}",
                     {"check": "validate-history-dependence", "steps": hist}, {"what": "validate-history", "valid": valid, "history": hist})
+
+
+def alias_wildcard_cases(ctx):
+    """every use of an alias or wildcard gets fresh variables: a synonym that holds a wildcard (`Any = TypeAlias(_)`, `AnyF = TypeAlias(F(_))`)
+    must be refused, or - if a language accepts it - behave like the wildcard written out, whatever was parsed before"""
+    from transforge.type import TypeOperator, TypeAlias, _
+    from transforge.expr import Operator
+    from transforge.lang import Language
+
+    def make(kind):
+        A = TypeOperator("A"); B = TypeOperator("B"); F = TypeOperator("F", params=1)
+        f = Operator(type=F(A) ** A, name="f"); g = Operator(type=F(B) ** B, name="g")
+        syn = TypeAlias(_) if kind == "bare" else TypeAlias(F(_)) if kind == "inst" else TypeAlias(lambda: F(_))
+        return Language(scope=dict(A=A, B=B, F=F, f=f, g=g, Any=syn), namespace="https://example.org/aw#")
+
+    def obs(lang, text):
+        try:
+            e = lang.parse(text)
+            return "ok " + str(e)
+        except Exception as ex:  # noqa
+            return "E:" + type(ex).__name__
+    import re
+    norm = lambda o: re.sub(r"τ\d+", "τ", o)  # noqa
+    for kind, use in (("bare", "F(Any)"), ("inst", "Any"), ("schema", "Any")):
+        ctx.evaluations += 1
+        ctx.count("alias_wildcard_cases")
+        try:
+            make(kind)
+        except Exception:  # noqa
+            ctx.count("alias_wildcard_refused")
+            continue
+        for hist, probe in (([f"f (- : {use})"], f"g (- : {use})"), ([f"g (- : {use})", f"f (- : {use})"], f"- : {use}")):
+            ref = norm(obs(make(kind), probe))
+            lang = make(kind)
+            for h in hist:
+                obs(lang, h)
+            got = norm(obs(lang, probe))
+            if got != ref:
+                ctx.fail(f"a language with the synonym Any = {'_' if kind == 'bare' else 'F(_)'} ({kind}) is accepted; probe {probe!r} after {hist} gives {got}, on a fresh language {ref}",
+                    {"check": "history-dependence", "steps": ["parse"], "alias_with_wildcard": True}, {"what": "alias-wildcard", "kind": kind})
+                break
 
 
 def polyconst_family(ctx):
@@ -304,6 +346,13 @@ def shrink(spec, opdecls, history, probe, ninputs, ref):
 def replay(ctx, payload):
     from props.C03 import fix_schema
     inp = payload["input"]
+    if inp.get("what") == "alias-wildcard":
+        c = type("C", (), {"failures": [], "evaluations": 0, "count": lambda self, n, k=1: None,
+            "fail": lambda self, d, f, r: self.failures.append(d)})()
+        alias_wildcard_cases(c)
+        for d in c.failures:
+            print(d)
+        return not c.failures
     if inp.get("what") == "validate-history":
         c = type("C", (), {"failures": [], "evaluations": 0, "count": lambda self, n, k=1: None,
             "fail": lambda self, d, f, r: self.failures.append(d)})()
